@@ -992,10 +992,10 @@ func (s *bmcSystem) encode() (base []*Term, obls []*obligation) {
 	for t := 0; t < s.nthreads; t++ {
 		notDone = append(notDone, tb.Ne(s.pcVar(t, K), tb.BV(8, pcDone)))
 	}
-	obls = append(obls, &obligation{name: "every-thread-completes (no deadlock, no lost wake-up)", kind: "complete", expect: "unsat", term: tb.And(tb.Or(notDone...), tb.Not(tb.Or(panics...)))})
+	obls = append(obls, &obligation{name: "every-thread-completes (no deadlock, no lost wake-up)", kind: "complete", expect: "unsat", term: tb.And(tb.Or(notDone...), tb.Not(tb.Or(panics...)), tb.Not(tb.Or(overflow...)))})
 	obls = append(obls, &obligation{name: "encoding: every fired transaction has an outcome", kind: "unwind", expect: "unsat", term: tb.Or(gaps...)})
 	if len(overflow) > 0 {
-		obls = append(obls, &obligation{name: "unwinding: shared sequence bound is sufficient", kind: "unwind", expect: "unsat", term: tb.Or(overflow...)})
+		obls = append(obls, &obligation{name: "unwinding: shared sequence, recursion and re-park bounds are sufficient", kind: "unwind", expect: "unsat", term: tb.Or(overflow...)})
 	}
 	if len(panics) > 0 {
 		obls = append(obls, &obligation{name: "no-panic", kind: "nopanic", expect: "unsat", term: tb.Or(panics...), detail: strings.Join(uniq(panicWhat), "; ")})
@@ -1346,6 +1346,7 @@ func (w *World) RunBMC(id string, bs BMCSpec, tier string, kfs map[string]KnownF
 		os.WriteFile(filepath.Join(d, "bmc_base_"+bs.Name+".smt2"), []byte(baseText), 0o644)
 	}
 	scratch, _ := os.MkdirTemp("", "symgo-bmc")
+	registerScratch(scratch)
 	defer os.RemoveAll(scratch)
 	timeout := bs.TimeoutSec
 	if timeout == 0 {
@@ -1511,7 +1512,7 @@ func (w *World) RunBMC(id string, bs BMCSpec, tier string, kfs map[string]KnownF
 		case r.ob.expect == "sat":
 			br.Inconclusive = append(br.Inconclusive, fmt.Sprintf("%s: vacuous: witness %q is unreachable", bs.Name, r.ob.name))
 		case r.ob.kind == "unwind":
-			br.Inconclusive = append(br.Inconclusive, fmt.Sprintf("%s: %q failed (shared-slice bound %d too small, or a branch the encoder pruned is reachable)", bs.Name, r.ob.name, bmcMaxSeq))
+			br.Inconclusive = append(br.Inconclusive, fmt.Sprintf("%s: %q failed (shared-slice bound %d, recursion bound %d or re-park bound %d too small, or a branch the encoder pruned is reachable)", bs.Name, r.ob.name, bmcMaxSeq, bmcMaxRecursion, bmcMaxParks))
 		default:
 			// a property obligation is satisfiable: counterexample schedule
 			trace := sys.traceOf(r.model)
